@@ -123,7 +123,8 @@ def run(res, replay=None):
                 db.cmd("mktable t5 k:i:n,w:s:n")
                 for i in range(9):
                     db.cmd("rawinsert t5 i:%d s:%s" % (i, (b"L" * (1000 - i)).hex()))
-                shapes = [("shrinking update", ["UPDATE t5 SET w = 'short' WHERE k = %d;" % rng.randrange(9)]),
+                shapes = [("shrinking update", ["UPDATE t5 SET w = 'short' WHERE k = %d;" % rng.randrange(8)]),
+                          ("shrinking update of a row of the last page (the new copy stays in the page)", ["UPDATE t5 SET w = 'short' WHERE k = 8;"]),
                           ("growing update", ["UPDATE t5 SET w = '%s' WHERE k = %d;" % ("G" * 1800, rng.randrange(9))]),
                           ("shrink then grow", ["UPDATE t5 SET w = 's' WHERE k = 2;", "UPDATE t5 SET w = '%s' WHERE k = 2;" % ("H" * 1500)]),
                           ("delete", ["DELETE FROM t5 WHERE k = %d;" % rng.randrange(9)]),
